@@ -809,6 +809,7 @@ func checkConflictAPI(c *Ctx, rule string) {
 	}
 	for _, fn := range pullSingleOps(p) {
 		name := FuncName(fn)
+		fn := p.View(fn) // error constructors of the package are part of the operation
 		var conflict []Edge
 		for _, en := range []string{"ErrLeaseNotFound", "ErrLeaseExpired"} {
 			ok, _, _ := GuardEdges(fn, allCalls(fn, isLeaseErr(en)), BoolTrue)
